@@ -2,7 +2,7 @@
 # usage: tools/confirm_mutant.sh <Cnn> <mK>
 # Confirms a seeded change in its scratch worktree /tmp/mut/<Cnn>: the patch applies, the crate builds with and
 # without the hooks feature, the existing suite passes with it, the demo FAILS with it and PASSES without it.
-id="$1"; m="$2"; w=/tmp/mut/$id; o=$w/OUT/$m
+id="$1"; m="$2"; w=${MUT_BASE:-/tmp/mut2}/$id; o=$w/OUT/$m
 export CARGO_NET_OFFLINE=true CARGO_TARGET_DIR=$w/target
 cd "$w" || exit 2
 git checkout -q -- . ; git clean -fdq -- src tests
